@@ -60,8 +60,14 @@ func (g *sgen) simple() Type {
 	case 6:
 		return Type{K: Bool}
 	case 7:
+		if g.r.Intn(4) == 0 {
+			return Type{K: Coins, Alias: "Grams"}
+		}
 		return Type{K: Coins}
 	case 8:
+		if g.r.Intn(4) == 0 {
+			return Type{K: Addr, Alias: "MsgAddressInt"}
+		}
 		return Type{K: Addr}
 	case 9:
 		n := 2 + g.r.Intn(31)
@@ -125,7 +131,7 @@ func (g *sgen) fieldType(depth int) Type {
 		return Type{K: Ref, A: ptr(g.refTarget(depth))}
 	case 7: // (Maybe T)
 		var a Type
-		switch g.r.Intn(5) {
+		switch g.r.Intn(7) {
 		case 0:
 			a = Type{K: Coins}
 		case 1:
@@ -134,6 +140,12 @@ func (g *sgen) fieldType(depth int) Type {
 			a = Type{K: Uint, N: g.pick([]int{8, 16, 32, 64, 5, 12})}
 		case 3:
 			a = Type{K: NatW, N: g.pick([]int{256, 12, 32})}
+		case 4, 5: // (Maybe (Either T ^T)), as in wallets.xml
+			x := Type{K: Cell}
+			if t, ok := g.named(); ok && g.r.Intn(3) > 0 {
+				x = t
+			}
+			a = Type{K: Either, A: &x, B: ptr(Type{K: Ref, A: ptr(x)})}
 		default:
 			if t, ok := g.named(); ok {
 				a = t
@@ -146,6 +158,9 @@ func (g *sgen) fieldType(depth int) Type {
 		a := Type{K: Cell}
 		if t, ok := g.named(); ok && g.r.Intn(2) == 0 {
 			a = t
+		}
+		if g.r.Intn(5) == 0 { // a built-in type behind the reference, e.g. (Maybe ^MsgAddress)
+			a = []Type{{K: Addr}, {K: Coins}, {K: Uint, N: g.uintN()}, {K: Bits, N: 256}}[g.r.Intn(4)]
 		}
 		return Type{K: Maybe, A: ptr(Type{K: Ref, A: &a})}
 	case 9: // (Either T ^T)
@@ -169,13 +184,15 @@ func (g *sgen) fieldType(depth int) Type {
 			n = 1 + g.r.Intn(64)
 		}
 		var a Type
-		switch g.r.Intn(5) {
+		switch g.r.Intn(6) {
 		case 0:
 			a = Type{K: Uint, N: g.uintN()}
 		case 1:
 			a = Type{K: Coins}
 		case 2:
 			a = Type{K: Addr}
+		case 5: // the rest of the leaf is the value: (HashmapE 32 Cell), (Hashmap 256 Cell)
+			a = Type{K: Cell}
 		case 3:
 			if t, ok := g.named(); ok {
 				a = Type{K: Ref, A: &t}
